@@ -46,16 +46,16 @@ PER_ATOM = ["atnums", "atcorenums", "atcoords", "atmasses", "atgradient", "atfro
 ATTRS = ["atnums", "atcorenums", "charge", "nelec", "spinpol", "mo", "atcoords", "atmasses", "atgradient", "atfrozen"]
 READS = ["charge", "nelec", "spinpol", "atcorenums", "natom", "atnums"]
 VALUES = {
-    "atnums": [None, [1], [8, 1], [6, 6], [8, 1, 1], [3, 17], [0, 2], []],
-    "atcorenums": [None, [1.0], [6.0, 1.0], [8.0, 1.0], [4.0, 4.0], [8.0, 1.0, 1.0], [2.5, 0.0], []],
+    "atnums": [None, [1], [8, 1], [6, 6], [8, 1, 1], [3, 17], [0, 2], [], {"scalar": 8}],
+    "atcorenums": [None, [1.0], [6.0, 1.0], [8.0, 1.0], [4.0, 4.0], [8.0, 1.0, 1.0], [2.5, 0.0], [], {"scalar": 10.0}],
     "charge": [None, 0, 1, -1, 0.5, 2.0],
     "nelec": [None, 10, 9, 2, 9.5, 0],
     "spinpol": [None, 0, 1, 2],
     "mo": [None, "R2", "R21", "U2", "Rfrac", "G", "Rnone", "Unone"],
-    "atcoords": [None, 1, 2, 3, 0],
+    "atcoords": [None, 1, 2, 3, 0, {"flat": 2}, {"flat": 3}],
     "atmasses": [None, 1, 2, 3, 0],
-    "atgradient": [None, 1, 2, 3, 0],
-    "atfrozen": [None, 1, 2, 3, 0],
+    "atgradient": [None, 1, 2, 3, 0, {"flat": 2}],
+    "atfrozen": [None, 1, 2, 3, 0, {"scalar": True}],
 }
 
 
@@ -64,6 +64,10 @@ def make_value(attr, v):
 
     if v is None:
         return None
+    if isinstance(v, dict) and "scalar" in v:
+        return np.array(v["scalar"])  # a 0-d value where a per-atom array belongs
+    if isinstance(v, dict) and "flat" in v:
+        return np.zeros(v["flat"])  # a 1-D array where an (N, 3) array belongs
     if attr == "mo":
         if v == "R2":
             return MolecularOrbitals("restricted", 2, 2, occs=np.array([2.0, 0.0]))
@@ -95,6 +99,8 @@ def make_value(attr, v):
 def length_of(attr, v):
     if v is None:
         return None
+    if isinstance(v, dict):
+        return "wrong-rank"  # never agrees with anything: must be rejected
     if attr in ("atcoords", "atmasses", "atgradient", "atfrozen"):
         return v
     return len(v)
@@ -140,14 +146,14 @@ class Model:
         self.mo = None
 
     def ideal_cores(self):
-        if self.cor_explicit is not None:
+        if self.cor_explicit is not None and not isinstance(self.cor_explicit, dict):
             return np.asarray(self.cor_explicit, float)
-        if self.atnums is not None:
+        if self.atnums is not None and not isinstance(self.atnums, dict):
             return np.asarray(self.atnums, float)
         return None
 
     def materialise(self):
-        if self.cor_explicit is None and self.atnums is not None and self.mat is None:
+        if self.cor_explicit is None and self.atnums is not None and self.mat is None and not isinstance(self.atnums, dict):
             self.mat = np.asarray(self.atnums, float)
 
     def stale(self):
@@ -308,6 +314,8 @@ def run_ops(trace, with_observer=True, check=True):
                 model.materialise()
             if check:
                 ls = {a: length_of(a, op["kwargs"][a]) for a in PER_ATOM if op["kwargs"].get(a) is not None}
+                if "wrong-rank" in ls.values():
+                    out.append(_v("I5_wrong_rank_accepted", f"constructed with a per-atom value of the wrong number of dimensions: {ls}", trace, k, False))
                 if len(set(ls.values())) > 1:
                     out.append(_v("I5_bad_construction_accepted", f"constructed with per-atom lengths {ls}", trace, k, False))
                 check_invariants(obj, model, trace, k, out)
@@ -359,7 +367,9 @@ def run_ops(trace, with_observer=True, check=True):
             if attr in PER_ATOM and v is not None:
                 L = length_of(attr, v)
                 others = model.other_lengths(attr)
-                if any(L != o for o in others):
+                if L == "wrong-rank":
+                    out.append(_v("I5_wrong_rank_accepted", f"{attr}={v} (wrong number of dimensions for a per-atom array) was accepted", trace, k, model.stale()))
+                elif any(L != o for o in others):
                     out.append(_v("I5_breaking_assignment_accepted", f"{attr} of length {L} accepted although other per-atom arrays have lengths {sorted(others)}", trace, k, model.stale()))
             if attr in ("nelec", "spinpol") and obj.mo is not None:
                 out.append(_v("I4_assignment_accepted_with_mo", f"{attr}={v} accepted although orbitals are present", trace, k, model.stale()))
